@@ -320,4 +320,57 @@ theorem C10_range_after_log_empty (log : List Msg) (s : Nat) (stop : Option Nat)
   have : ¬ log.length ≤ i := by omega
   simp [this]
 
+/-! ### The time range handed to `filter_in_place()` of a reader constructed with the other criteria
+
+`Reader.constructThenFilterTime` is what the index path of `filter_in_place()` computes: the positional time
+slice of the CURRENT (type-filtered) index.  It is the cursor model's `filterTime` step (the one C11 refines);
+without a type filter it is the constructor's own chain, so `C10_read_eq_filterSpec` covers it; with a type
+filter it is not the specification: an untimed message of a selected type is then placed among the selected
+types only (finding `C10/filter-in-place-time-range-on-type-filtered-reader`, witnessed below). -/
+
+/-- Without a type filter both routes are the same function. -/
+theorem C10_filter_in_place_route_no_types (log : List Msg) (range : Option TRange) :
+    constructThenFilterTime log none range = construct log none range := by
+  unfold constructThenFilterTime construct applyRange applyTypes
+  cases range <;> simp
+
+/-- Hence: a reader without a type filter that is given its time range through `filter_in_place()` returns
+exactly the specified messages. -/
+theorem C10_filter_in_place_route_no_types_spec (log : List Msg) (hwf : LogWF log) (c : Crit) (hc : c.types = none) :
+    (constructThenFilterTime log c.types c.range).map (readAll log c.sources c.maxBytes false) = filterSpec log c := by
+  rw [← C10_read_eq_filterSpec log hwf c, hc, C10_filter_in_place_route_no_types]
+
+/-- The route is the cursor model's `filterTypes` step followed by its `filterTime` step (a refused range
+leaves the type-filtered index in place and raises). -/
+theorem C10_filter_in_place_route_is_cursor_step (log : List Msg) (ts : List Nat) (r : TRange) :
+    (step (step (Cur.init (indexOf log)) (.filterTypes ts)).1 (.filterTime r)).1.cur =
+      (constructThenFilterTime log (some ts) (some r)).getD (sliceByTypes (indexOf log) ts) := by
+  simp only [step, Cur.init, Cur.withCur, constructThenFilterTime, applyTypes]
+  cases sliceByRange (sliceByTypes (indexOf log) ts) (t0Of (indexOf log)) r <;> rfl
+
+def openFindingLog : List Msg :=
+  [⟨0, 30, 2, 0, some 0⟩, ⟨30, 30, 1, 0, none⟩, ⟨60, 30, 1, 0, some 1000000000⟩, ⟨90, 30, 2, 0, some 5000000000⟩]
+
+def openFindingRange : TRange := ⟨false, some 0, some 2000000000, none⟩
+
+/-- **Open finding, witnessed.** Messages of type 1 in the first two seconds of a log `[type 2 at 0 s,
+type 1 untimed, type 1 at 1 s, type 2 at 5 s]`: the specification and the constructor return the untimed
+message 1 and message 2; `MixedLogReader(message_types=[1]).filter_in_place(TimeRange(0, 2))` returns
+message 2 only, because the untimed message precedes the first timed message *of type 1*. -/
+theorem C10_filter_in_place_after_types_open :
+    filterSpec openFindingLog ⟨some [1], some openFindingRange, none, none⟩ = some [1, 2] ∧
+    (construct openFindingLog (some [1]) (some openFindingRange)).map (readAll openFindingLog none none false)
+      = some [1, 2] ∧
+    (constructThenFilterTime openFindingLog (some [1]) (some openFindingRange)).map
+      (readAll openFindingLog none none false) = some [2] := by
+  decide
+
+/-- Same mechanism when no selected type carries P1 time: the route returns nothing (type 1 selected, log
+cut after the untimed message). -/
+theorem C10_filter_in_place_after_untimed_types_open :
+    filterSpec (openFindingLog.take 2) ⟨some [1], some openFindingRange, none, none⟩ = some [1] ∧
+    (constructThenFilterTime (openFindingLog.take 2) (some [1]) (some openFindingRange)).map
+      (readAll (openFindingLog.take 2) none none false) = some [] := by
+  decide
+
 end FeVerif
